@@ -1,3 +1,99 @@
-(* Property C05 (placeholder while the proofs are being written). *)
+(* Property C05: calls from MIR code to native functions follow the x86-64 SysV C ABI for every
+   prototype.  Only the property theorems, each closed by [exact] and followed by Print Assumptions.
+   Spec: C05/SysV.v (psABI algorithm).  Implementation models: C05/AbiImpl.v (transcriptions of
+   _MIR_get_ff_call, machinize_call, target_machinize with fixes C05-1..3 applied; the pinned
+   commit's loops are the *_head definitions, refuted below). *)
 From Coq Require Import List ZArith.
-From MirV Require Import C05.SysV C05.AbiImpl.
+From MirV Require Import C05.SysV C05.AbiImpl C05.AbiProofs.
+Import ListNotations.
+Local Open Scope Z_scope.
+
+(* (a) the interpreter's foreign-call trampoline assigns every argument of every well-formed
+   argument list (named and variadic actuals alike) to exactly the psABI locations, and ends with
+   the psABI counters. *)
+Theorem ffcall_assign_eq_sysv : forall args, wf_args args = true -> ff_assign args = assign args.
+Proof. exact ffcall_assign_eq. Qed.
+Print Assumptions ffcall_assign_eq_sysv.
+
+(* (b) generated code: machinize_call places every argument at the psABI location; its stack
+   counter is the psABI's; its register counters (which keep counting past the register files)
+   saturate to the psABI's. *)
+Theorem machinize_assign_eq_sysv : forall args, wf_args args = true ->
+  fst (mc_assign args) = fst (assign args)
+  /\ so (snd (mc_assign args)) = so (snd (assign args))
+  /\ nx (snd (assign args)) = Z.min (nx (snd (mc_assign args))) 8
+  /\ ni (snd (assign args)) = Z.min (ni (snd (mc_assign args))) 6.
+Proof. exact machinize_assign_eq. Qed.
+Print Assumptions machinize_assign_eq_sysv.
+
+(* the stack is 16-byte aligned at the call instruction, and the reserved area covers every stack
+   argument: (a) for the trampoline entered with the ABI's rsp = 8 mod 16; (b) for generated code
+   whose frame keeps rsp = 0 mod 16 (C06 frame_sp_aligned), where the adjustment is exactly the
+   psABI area. *)
+Theorem call_stack_aligned : forall args, wf_args args = true ->
+  (forall entry_rsp, entry_rsp mod 16 = 8 ->
+     (ff_rsp_at_call entry_rsp args) mod 16 = 0 /\ so (snd (assign args)) <= ff_sub_rsp args)
+  /\ (forall frame_rsp, frame_rsp mod 16 = 0 ->
+     (frame_rsp - mc_sub_rsp args) mod 16 = 0 /\ so (snd (assign args)) <= mc_sub_rsp args
+     /\ mc_sub_rsp args = stack_area args).
+Proof. intros args W; split; intros r H; [exact (ff_call_aligned args r W H)|exact (mc_call_aligned args r W H)]. Qed.
+Print Assumptions call_stack_aligned.
+
+(* every location handed out is a real argument register or lies inside the reserved stack area,
+   and no two eightbytes (of the same or of different arguments) share a location *)
+Theorem assign_locations_sound : forall args, wf_args args = true ->
+  Forall (loc_in 0 (stack_area args)) (concat (fst (assign args)))
+  /\ NoDup (concat (fst (assign args))).
+Proof. intros args W; split; [exact (assign_locs_in_area args W)|exact (assign_nodup args W)]. Qed.
+Print Assumptions assign_locations_sound.
+
+(* hence a callee that reads each argument where the psABI puts it receives exactly the words the
+   caller wrote for that argument -- for both engines, since they write per the same assignment *)
+Theorem callee_receives_every_argument : forall args vals, wf_args args = true ->
+  same_shape (fst (assign args)) vals ->
+  read_args (fst (assign args)) (image (fst (ff_assign args)) vals) = map (map Some) vals
+  /\ read_args (fst (assign args)) (image (fst (mc_assign args)) vals) = map (map Some) vals.
+Proof.
+  intros args vals W S. rewrite (ffcall_assign_eq args W).
+  destruct (machinize_assign_eq args W) as [E _]. rewrite E.
+  split; exact (sysv_roundtrip args vals W S).
+Qed.
+Print Assumptions callee_receives_every_argument.
+
+(* %al of a variadic call is an upper bound (<= 8) on the vector registers used *)
+Theorem varargs_al_ok : forall args, wf_args args = true ->
+  al_ok args (mc_al args) = true /\ al_ok args ff_al = true.
+Proof. intros args W; split; [exact (mc_al_ok args W)|exact (ff_al_ok args W)]. Qed.
+Print Assumptions varargs_al_ok.
+
+(* every legal combination of results is received from the registers the psABI returns it in *)
+Theorem result_regs_eq_sysv : forall rs l, result_locs rs = Some l ->
+  mc_results rs = Some l /\ ff_results rs = Some l.
+Proof. exact result_regs_eq. Qed.
+Print Assumptions result_regs_eq_sysv.
+
+(* ... and "legal" is exactly: at most two results per class (MIR.md) *)
+Theorem result_locs_total_on_legal : forall rs,
+  (forall c, (cnt c rs <= 2)%nat) -> exists l, result_locs rs = Some l.
+Proof. intros rs H. apply (result_locs_legal rs []). intros c. exact (H c). Qed.
+Print Assumptions result_locs_total_on_legal.
+
+(* The loops of the pinned commit (before fixes C05-1..3) do NOT satisfy the theorems above:
+   witnesses, replayed by ./check C05 on the real code. *)
+Theorem ffcall_assign_head_refuted :
+  exists args, wf_args args = true /\ fst (ff_assign_head args) <> fst (assign args).
+Proof. exists [ABlk 3 16; AD]. exact ffcall_head_refuted. Qed.
+Print Assumptions ffcall_assign_head_refuted.
+
+Theorem ld_stack_alignment_head_refuted :
+  exists args, wf_args args = true
+  /\ fst (ff_assign_head args) <> fst (assign args)
+  /\ fst (mc_assign_head args) <> fst (assign args)
+  /\ fst (in_assign_head args) <> fst (assign args).
+Proof. eexists. exact ld_align_head_refuted. Qed.
+Print Assumptions ld_stack_alignment_head_refuted.
+
+Theorem varargs_al_head_refuted :
+  exists args, wf_args args = true /\ al_ok args (mc_al_head args) = false.
+Proof. eexists. exact mc_al_head_refuted. Qed.
+Print Assumptions varargs_al_head_refuted.
